@@ -2,6 +2,7 @@
 from __future__ import annotations
 
 import collections
+import dataclasses
 
 import fiddle as fdl
 from fiddle import daglish
@@ -149,6 +150,26 @@ def c08_traverse(api: int, w: int, rootkind: int, t1x: int, t1y: int, t2x: int, 
     for oid in list(muts) + list(ptup):
       if seen.get(oid) != sorted(by_id[oid]):
         return False
+    # allow_caching=False re-reads the structure: after the traversal function has given an already known object one
+    # more parent, the un-cached query reports the new paths as well
+    extra = {}
+    target = nodes[0]
+    holder = root['cfg'] if isinstance(root, dict) else (root[0] if isinstance(root, list) else root)
+
+    def visit2(value, state):
+      if value is target and not extra:
+        extra['first'] = sorted(daglish.path_str(p) for p in state.get_all_paths())
+        holder.k['again'] = target                              # one more reference to an object seen before
+        extra['want'] = sorted(p for p, o in reach_paths(root) if o is target)
+        extra['second'] = sorted(daglish.path_str(p) for p in state.get_all_paths(allow_caching=False))
+        del holder.k['again']
+      for _ in state.yield_map_child_values(value, ignore_leaves=True):
+        pass
+
+    daglish.MemoizedTraversal.run(visit2, root)
+    if extra.get('first') != sorted(by_id[id(target)]) or extra.get('second') != extra.get('want') or \
+        len(extra['want']) <= len(extra['first']):
+      return False
   elif api == 5:
     new = daglish.MemoizedTraversal.run(lambda v, s: s.map_children(v), root)
     if canon(new) != before or new is root:
@@ -218,11 +239,64 @@ def canon_tree_equal(new, old):
   return a == b
 
 
+@dataclasses.dataclass
+class Ring:
+  val: int = 0
+  nxt: object = None
+
+
+class Cell:
+  """Known only to the registry of the traversal that is handed it (never to the default registry)."""
+
+  def __init__(self, val, nxt=None):
+    self.val, self.nxt = val, nxt
+
+
+_CELL_REGISTRY = daglish.NodeTraverserRegistry(use_fallback=True)
+_CELL_REGISTRY.register_node_traverser(
+    Cell, flatten_fn=lambda c: ((c.val, c.nxt), None), unflatten_fn=lambda vals, _: Cell(*vals),
+    path_elements_fn=lambda c: (daglish.Attr('val'), daglish.Attr('nxt')))
+
+
 def c08_cycles(kind: int, api: int, v: int) -> bool:
   """
-  Reference cycles make every *memoized* traversal raise an ordinary error (not RecursionError).
-  require: 0 <= kind <= 2 and 0 <= api <= 2
+  Reference cycles make every *memoized* traversal raise an ordinary error (not RecursionError) - also traversals
+  that run with their own registry (kinds 3-5: the cycle passes only through node types of that registry).
+  require: 0 <= kind <= 5 and 0 <= api <= 2
   """
+  if kind >= 3:
+    from fiddle._src.experimental import dataclasses as fdl_dc
+    if kind == 3:
+      root = Ring(v)
+      root.nxt = root                                  # a dataclass pointing at itself
+      reg = fdl_dc.daglish_dataclass_registry
+    elif kind == 4:
+      a, b = Ring(v), Ring(v + 1)
+      a.nxt, b.nxt = b, a                              # a two-dataclass ring below a list
+      root = [a, v]
+      reg = fdl_dc.daglish_dataclass_registry
+    else:
+      a, b = Cell(v), Cell(v + 1)
+      a.nxt, b.nxt = b, a
+      root = Cell(0, a)
+      reg = _CELL_REGISTRY
+    note('c08c', kind, api)
+    try:
+      if api == 0:
+        if kind == 5:
+          return True                                   # convert_dataclasses_to_configs is about dataclasses
+        fdl_dc.convert_dataclasses_to_configs(root)
+      elif api == 1:
+        fn = lambda val, s: s.map_children(val)
+        fn(root, daglish.MemoizedTraversal(fn, root, reg).initial_state())
+      else:
+        fn = lambda val, s: [x for sub in s.yield_map_child_values(val) for x in [sub]] if s.is_traversable(val) else val
+        fn(root, daglish.MemoizedTraversal(fn, root, reg).initial_state())
+    except RecursionError:
+      return False
+    except Exception:  # pylint: disable=broad-except
+      return True
+    return False
   if kind == 0:
     lst = [v]
     lst.append(lst)
@@ -261,6 +335,6 @@ def obligations(tier, seed):
   return [
       Obligation('c08_traverse', c08_traverse, cubes, timeout=t, path_timeout=40, smoke=smoke,
                  extra_smokes=[dict(smoke, api=a, rootkind=a % 3, w=(a % 5)) for a in range(10)]),
-      Obligation('c08_cycles', c08_cycles, [Cube(f'k{k}_a{a}', [], dict(kind=k, api=a)) for k in range(3) for a in range(3)],
-                 timeout=120, smoke=dict(kind=0, api=0, v=1), extra_smokes=[dict(kind=k, api=a, v=1) for k in range(3) for a in range(3)]),
+      Obligation('c08_cycles', c08_cycles, [Cube(f'k{k}_a{a}', [], dict(kind=k, api=a)) for k in range(6) for a in range(3)],
+                 timeout=120, smoke=dict(kind=0, api=0, v=1), extra_smokes=[dict(kind=k, api=a, v=1) for k in range(6) for a in range(3)]),
   ]
